@@ -130,6 +130,11 @@ def check_batt_life(sess, op, res):
         return
     if op.get("pfault"):
         return  # judged by C17
+    if bat is not None and any(e[0] == "deplete" and (e[2] == 0 or not math.isfinite(e[1]) or not math.isfinite(e[2])) for e in bat.log):
+        # a battery that is never discharged: its capacity does not 'eventually
+        # run out', the property does not speak about it
+        sess.stats["c18_zero_current_skipped"] += 1
+        return
     if res[0] != "ok":
         if res[1] == "PeerLimit":
             sess.stats["c18_peer_limit"] += 1
